@@ -172,6 +172,7 @@ class Interp:
         self.max_depth = max_depth
         self.calls: List[Tuple[str, Dict[str, Any]]] = []  # (qualname, bound arguments) of every package call seen
         self.module_globals: Dict[str, Dict[str, Any]] = {}
+        self.module_consts: Dict[Tuple[str, str], Any] = {}
         self.missing_attr_raises = False  # stand-ins that are complete: a missing attribute is an AttributeError
 
     # ------------------------------------------------------------------ calling
@@ -253,8 +254,14 @@ class Interp:
             if isinstance(v, ast.Constant):
                 return v.value
             if isinstance(v, (ast.List, ast.Tuple, ast.Dict, ast.Set)):
+                # one object per module-level name for the lifetime of this interpreter (as in the running module):
+                # code that hands such an object out by reference shares it between its results
+                key = (ev.fn.unit.modname, e.id)
+                if key in self.module_consts:
+                    return self.module_consts[key]
                 try:
-                    return ast.literal_eval(v)
+                    self.module_consts[key] = ast.literal_eval(v)
+                    return self.module_consts[key]
                 except (ValueError, SyntaxError):
                     pass
             if isinstance(v, ast.Call) and norm(v.func) == "re.compile" and v.args and all(isinstance(a, ast.Constant) for a in v.args) and not v.keywords:
@@ -442,6 +449,19 @@ class Interp:
                 if len(c.args) == 3:
                     return ev.eval(c.args[2])
                 raise EvalRaise("AttributeError", c)
+        if isinstance(f, ast.Name) and f.id == "setattr" and f.id not in ev.env and len(c.args) == 3 and not c.keywords:
+            obj, name, value = ev.eval(c.args[0]), ev.eval(c.args[1]), ev.eval(c.args[2])
+            if isinstance(obj, self.native) and isinstance(name, str):
+                try:
+                    setattr(obj, name, value)
+                except AttributeError:
+                    raise EvalRaise("AttributeError", c)
+                except ValueError:
+                    raise EvalRaise("ValueError", c)
+                except TypeError:
+                    raise EvalRaise("TypeError", c)
+                return None
+            raise Unknown("setattr on a value outside the stand-in world")
         if isinstance(f, ast.Attribute) and isinstance(f.value, ast.Name) and f.value.id == "dict" and f.attr == "fromkeys" and "dict" not in ev.env:
             args, kwargs = self.args_of(ev, c)
             return dict.fromkeys(*args)
